@@ -80,7 +80,7 @@ MANIFEST_ENTRY = {
             "unreachable from parse - ctor_assertions_unreachable; no TypeError from a role feature named self), an accepted "
             "message has every id in [0,2^53] - positional and inside options (parse_strict_ids, parse_strict_option_ids, "
             "parse_strict_option_id_lists) -, every URI accepted by the regenerated pattern for its flags, every option of its "
-            "checked type, an admissible element count and a known type code (parse_strict); against the Spec that is written "
+            "checked type, an admissible element count and a known type code (parse_strict and its companions; these are stated for the 23 classes other than HELLO/WELCOME, whose role dictionaries are covered by hello_roles_spec / welcome_roles_spec and the Spec theorem below); against the Spec that is written "
             "without reference to the code (protocol id range, intended URI grammar, intended option types, protocol type codes) "
             "an accepted message of any of the 25 classes has no violation except the args of a PUBLISH, which may be str/bytes "
             "(parse_strict_spec_partial, parse_strict_spec_but_publish; the full statement ParseStrictSpec therefore still fails, "
